@@ -100,7 +100,8 @@ pub fn eval(n: &Node, at: Decimal) -> R {
         Expr::At => RV::exact(at),
         Expr::Pi => RV::Val(Decimal::PI, Q::Tol(1e-9)),
         Expr::E => RV::Val(Decimal::E, Q::Tol(1e-9)),
-        Expr::Neg(x) => un(eval(x, at), |v, q| RV::Val(-v, q)),
+        // (a Lambert-quality value is not produced by the reference: its negation is defined but not compared)
+        Expr::Neg(x) => un(eval(x, at), |v, q| RV::Val(-v, if matches!(q, Q::Lambert(_)) { Q::Skip } else { q })),
         Expr::Pos(x) => eval(x, at),
         Expr::Group(k, x) => un(eval(x, at), |v, q| match k {
             GroupKind::Paren => RV::Val(v, q),
